@@ -307,6 +307,32 @@ func runC33(rec *kit.Recorder, c lsCase) (err error) {
 		if len(ann.Other)+len(perf.Other) > 0 {
 			st.label("output:unparsed-line")
 		}
+		if kind == "sync" {
+			for _, a := range w.resolveArgs(step.Cmd.Roots) {
+				if a.Linked {
+					st.label("sync:root-through-symlink")
+					break
+				}
+			}
+		}
+		if len(before) > 0 {
+			strayTmp, strayOther := false, false
+			for rel, f := range before {
+				switch {
+				case rel == "." || rel == ".zoekt-local-sync.lock" || lsIsShard(rel) || strings.HasSuffix(rel, ".zoekt.meta"):
+				case !f.Dir && strings.HasSuffix(rel, ".tmp"):
+					strayTmp = true
+				default:
+					strayOther = true
+				}
+			}
+			if strayTmp {
+				st.label("preview:index-holds-leftover-tmp-files")
+			}
+			if strayOther {
+				st.label("preview:index-holds-unrelated-files-or-directories")
+			}
+		}
 		if kind == "sync" && w.movedPending {
 			st.moveSynced = true
 			w.movedPending = false
@@ -332,11 +358,13 @@ func runC33(rec *kit.Recorder, c lsCase) (err error) {
 func TestVerif_C33(t *testing.T) {
 	lsSetup(t)
 	rec := kit.Open(t, "C33",
-		"rapid-generated histories of 2-6 steps over 4 root directories (two with the same base name, one ending in .git): each step mutates the roots (add non-bare / bare / gitfile / root-level / nested repositories and *.git look-alikes, delete, move between roots, rename, new commit, config change, foreign shard written into the index) and then runs `sync` or `remove <selectors>`; the preview runs first, then the same command with -f on the same state (index directory backed up and restored when the step is preview-only); a case = one history; non-trivial = the history performed >= 1 removal and >= 1 re-index of an already indexed name, or synced after a repository move; distinct by hash of the JSON case",
+		"rapid-generated histories of 2-6 steps over 4 root directories (two with the same base name, one ending in .git): each step mutates the roots (add non-bare / bare / gitfile / root-level / nested repositories and *.git look-alikes, delete, move between roots, rename, new commit, config change, foreign shard written into the index; in 40% of the histories also leftovers put into the index directory: <shard>.N.tmp / <shard>.meta.N.tmp files as a killed or concurrently running indexer leaves them (for a shard that is there, half its bytes, or for a repository not indexed yet), unrelated files, sub-directories holding shard-like and *.tmp files) and then runs `sync` or `remove <selectors>`; the preview runs first, then the same command with -f on the same state (index directory backed up and restored when the step is preview-only); a case = one history; non-trivial = the history performed >= 1 removal and >= 1 re-index of an already indexed name, or synced after a repository move; distinct by hash of the JSON case",
 		"build options are constant across a history (-disable_ctags -submodules=false -shard_limit N; a third of the histories use a small N so that repositories span several shards)",
 		"`performed` is read from the -f output (Removing / Indexed lines) and from the before/after snapshots of the index directory (deleted, new or rewritten shard files, attributed to repositories by reading the resulting shards); both must equal what the preview announced (Would remove / Would index lines)",
 		"the -f run happens in place on the very same state (sources stored in shards are absolute, a copy at another path would be a different state); the index directory is restored from a byte-and-mtime preserving backup when the step is preview-only",
-		"snapshot = names, kinds, modes, sizes, sha256 and mtimes of everything in the index directory including the directory itself; the lock file and the index directory created by -f are not counted as removals/indexing",
+		"the no-side-effect rule covers every name and byte of the index directory, not only shards: leftover temporary files, unrelated files and sub-directories must survive a preview untouched too (what -f does to them is not judged)",
+		"a seventh of the syncs name one root through a symbolic link (preview and -f get the same words)",
+		"snapshot = names, kinds, modes, sizes, sha256 and mtimes of everything in the index directory (recursively) including the directory itself; the lock file and the index directory created by -f are not counted as removals/indexing",
 	)
 	kit.Property(t, rec, lsGen, func(c lsCase) error { return runC33(rec, c) })
 }
